@@ -22,3 +22,9 @@ func VerifShutdownTimeout(cfg *HTTPProxyConfig, d time.Duration) {
 	cfg.shutdownConfig.ShutdownTimeout = d
 	cfg.shutdownConfig.ShutdownSignals = nil
 }
+
+// VerifMatchHost is matchHost: a rule list asked about a host as the proxy asks it - under every spelling of the host
+// (as the client wrote it, lower case, the ASCII form that is dialled).
+func VerifMatchHost(m Matcher, host string) bool {
+	return matchHost(m, host)
+}
